@@ -458,7 +458,7 @@ def check_type(case, M):
     e = json.loads(json.dumps(case["expr"]))
     sp = list(case["sp"])
     text = render(e, sp)
-    ans = M.ask([Sym("c15.expr"), wire_expr(e), sp])
+    ans = M.ask([Sym("c15.expr"), int(strict_impl()), wire_expr(e), sp])
     ltext, lden, lwf, ltoks = str(ans[0]), unwire(ans[1]), ans[2] == "1", res(ans[3])
     if ltext != text:
         raise RuntimeError(f"Lean render and harness render differ: {ltext!r} vs {text!r}")
@@ -469,7 +469,7 @@ def check_type(case, M):
         raise RuntimeError(f"generated expression is not well-formed for the Lean spec: {e}")
     if ltoks != ("ok", lden):
         raise RuntimeError(f"token-level parser differs from ⟦e⟧ (contradicts theorem C15_type_tokens): {text!r}")
-    m = M.ask([Sym("c15.type"), text])
+    m = M.ask([Sym("c15.type"), int(strict_impl()), text])
     mchar, mtok = res(m[0]), res(m[1])
     if mchar != mtok:
         raise RuntimeError(f"character-level model and token-level machine differ on {text!r}")
@@ -552,14 +552,33 @@ def has_unmatched_open(text):
 
 
 def is_lenient_text(case):
-    return case["mal"] in LENIENT
+    return case["mal"] in LENIENT and not strict_impl()
+
+
+_STRICT = None
+
+
+def strict_impl():
+    """does the implementation contain the repair of C15-F4 (fixes_proposed/C15-F4.diff)?  probed at the
+    witnesses of the finding; the driver is asked for the same variant of the model (flag `s`)"""
+    global _STRICT
+    if _STRICT is None:
+        from synth.syntax import auto_type
+        n = 0
+        for t in ("int)", "int ->", "-> int", "int |"):
+            try:
+                auto_type(t)
+            except Exception:  # noqa
+                n += 1
+        _STRICT = n == 4
+    return _STRICT
 
 
 def check_tmal(case, M):
     import re
     from synth.syntax import auto_type
     text = case["text"]
-    m = M.ask([Sym("c15.type"), text])
+    m = M.ask([Sym("c15.type"), int(strict_impl()), text])
     mchar = res(m[0])
     mo = (mchar[0], mchar[1] if mchar[0] == "ok" else None)
     st, val = guarded(lambda: dump_type(auto_type(text)), 2)
@@ -577,7 +596,7 @@ def check_tmal(case, M):
         for t, fid in ((t2, "C15-F1"), (t3, "C15-F2")):
             if t == text:
                 continue
-            if res(M.ask([Sym("c15.type"), t])[0]) != mchar:
+            if res(M.ask([Sym("c15.type"), int(strict_impl()), t])[0]) != mchar:
                 return None
             s2, v2 = guarded(lambda: dump_type(auto_type(t)), 2)
             if (s2, v2 if s2 == "ok" else None) == mo:
@@ -898,9 +917,16 @@ def corpus():
         # C15-F3: unclosed parenthesis used to loop forever
         {"kind": "tmal", "mal": "unclosed", "text": "(int"},
         {"kind": "tmal", "mal": "unclosed", "text": "'a[int | bool"},
-        # C15-F4 (open): unmatched closing parenthesis / dangling operator accepted
+        # C15-F4: unmatched closing parenthesis / dangling operator accepted (known finding on a tree without
+        # fixes_proposed/C15-F4.diff; must raise on a tree with it)
         {"kind": "tmal", "mal": "unmatched_close", "text": "int)"},
         {"kind": "tmal", "mal": "dangling", "text": "int ->"},
+        {"kind": "tmal", "mal": "dangling", "text": "-> int"},
+        {"kind": "tmal", "mal": "dangling", "text": "int |"},
+        {"kind": "tmal", "mal": "dangling", "text": "-> int list"},
+        {"kind": "tmal", "mal": "dangling", "text": "int -> bool *"},
+        {"kind": "tmal", "mal": "dangling", "text": "int -> -> int"},
+        {"kind": "tmal", "mal": "unmatched_close", "text": "'a[int]] -> (int -> int)) list"},
         # documented examples
         {"kind": "type", "expr": ["infx", "->", ["union", ["prim", "int"], ["prim", "float"]], ["prim", "float"]], "sp": [0, 1, 1, 1, 1, 1, 0]},
         {"kind": "type", "expr": ["infx", "->", ["fvar", "a", ["union", ["prim", "int"], ["prim", "float"]]],
